@@ -255,7 +255,7 @@ fn history(cfg: &Cfg, rep: &mut Report, kind: Kind, h: u64, steps: usize) {
 
 pub fn run(cfg: &Cfg, rep: &mut Report) {
     rep.rule = "Seeded histories of offer(new, live_until on {cur-1,cur,cur+1,..,max,max+1,0=cancel}) / accept / renounce / owner-guarded call on the ownable example and an AccessControl wrapper, min_temp_entry_ttl=1, each call signed by the principal alone (1/2) or a uniformly random subset of the 4 accounts; ledger moved to {L-1,L,L+1} of ANY offer made so far. Distinct case = (contract, op, position of cur relative to latest live_until, whether the replaced offer was longer or shorter lived, principal signed?, outcome).".into();
-    let nh = cfg.pick(400u64, 3000);
+    let nh = cfg.pick(400u64, 50_000);
     let steps = cfg.pick(60usize, 120);
     for (ki, kind) in [Kind::Ownable, Kind::Admin].iter().enumerate() {
         for k in 0..nh {
